@@ -103,6 +103,20 @@ def oracle(case, out):
                 'handler result %s %s' % (len(fin['cout']), len(fin['cpend']), len(A), len(fin['uprcvd']),
                                           next((i for i, (a, b) in enumerate(zip(have, want)) if a != b), min(len(have), len(want))),
                                           fin['res'], fin['trace']))
+    # the proxy itself never ends an established exchange while the upstream still has bytes to send: a teardown needs a
+    # cause (a peer closing / resetting / timing out, a failed send, a protocol error of a later client request, the idle
+    # reaper).  Independent of the model (which says the same through the per-step results).
+    if fin['res'] and fin.get('up_left_first') == 'data' and not is_tunnel:
+        def bad(x):
+            return isinstance(x, str) and x != 'block'
+        cause = any(bad(e.get('c_recv')) or bad(e.get('u_recv')) or bad(e.get('c_send')) or bad(e.get('u_send')) for e in out['events'])
+        cause = cause or any(o['cdata'] == 'raise' or (isinstance(o['cdata'], (list, tuple)) and o['cdata'][0] == 'proto') or o['req'] == 'raise'
+                             or (isinstance(o['req'], (list, tuple)) and o['req'][0] == 'error') for o in out['oracles'])
+        cause = cause or any(s.get('inactive') for s in steps) or case.get('exchange') == 'malformed-upstream'
+        if not cause:
+            return ('the proxy tore the established exchange down on its own: no peer closed or failed, nothing was rejected, the '
+                    'connection was not idle - yet %d bytes the upstream was still going to send were never read (trace %s)'
+                    % (fin['up_left'], fin['trace']))
     prev = 0
     for i, s in enumerate(steps):
         if s['csent'] < prev:
